@@ -1247,7 +1247,7 @@ package dig
 //@   let all = ret(appendSubscopes_1, 0)
 //@   ensures[C03:registering-runs-nothing,C17:registering-runs-nothing] $nrun == old($nrun) && $ncb == old($ncb) && $ev == old($ev)
 //@   ensures[C06:rejected-provide-keeps-every-provider-list,C09:rejected-provide-keeps-every-provider-list,C14:rejected-provide-keeps-every-provider-list] err != nil ==> (forall x *Scope, k key :: existed(x) ==> x.providers[k] == old(x.providers[k]))
-//@   ensures[C06:rejected-provide-keeps-every-node-list,C14:rejected-provide-keeps-every-node-list] err != nil ==> (forall x *Scope :: existed(x) ==> x.nodes == old(x.nodes))
+//@   ensures[C06:rejected-provide-keeps-every-node-list,C14:rejected-provide-keeps-every-node-list,C19:rejected-provide-keeps-every-node-list] err != nil ==> (forall x *Scope :: existed(x) ==> x.nodes == old(x.nodes))
 //@   ensures[C06:rejected-provide-rolls-back-every-listed-graph,C05:rejected-provide-rolls-back-every-listed-graph,C14:rejected-provide-rolls-back-every-listed-graph] err != nil && reached(appendSubscopes_1) ==> (forall k int :: 0 <= k && k < len(all) ==> (let g = all[k].gh in len(g.nodes) == old(len(g.nodes))))
 //@   ensures[C06:no-graph-loses-a-node] forall g *graphHolder, j int :: existed(g) && 0 <= j && j < old(len(g.nodes)) && j < len(g.nodes) ==> g.nodes[j] == old(g.nodes[j])
 //@   ensures[C06:rejected-provide-leaves-the-info-untouched,C18:rejected-provide-leaves-the-info-untouched] err != nil && opts.Info != nil ==> opts.Info.ID == old(opts.Info.ID) && opts.Info.Inputs == old(opts.Info.Inputs) && opts.Info.Outputs == old(opts.Info.Outputs)
@@ -1255,9 +1255,9 @@ package dig
 //@   let othersKept = forall x *Scope, k key :: existed(x) && x != tgt ==> x.providers[k] == old(x.providers[k])
 //@   let registered = (forall k key :: k in oldProviders ==> oldProviders[k] == old(tgt.providers[k])) && (forall k key :: !(k in oldProviders) ==> tgt.providers[k] == old(tgt.providers[k]))
 //@   let node = ret(newConstructorNode_1, 0)
-//@   ensures[C08:accepted-node-joins-the-target-scope,C06:accepted-node-joins-the-target-scope] err == nil ==> len(tgt.nodes) == old(len(tgt.nodes)) + 1 && tgt.nodes[len(tgt.nodes) - 1] == node
+//@   ensures[C08:accepted-node-joins-the-target-scope,C06:accepted-node-joins-the-target-scope,C19:accepted-node-joins-the-target-scope] err == nil ==> len(tgt.nodes) == old(len(tgt.nodes)) + 1 && tgt.nodes[len(tgt.nodes) - 1] == node
 //@        && node.s == tgt && node.origS == s0 && !node.called
-//@   ensures[C08:accepted-provide-touches-no-other-node-list] forall x *Scope :: existed(x) && x != tgt ==> x.nodes == old(x.nodes)
+//@   ensures[C08:accepted-provide-touches-no-other-node-list,C19:accepted-provide-touches-no-other-node-list] forall x *Scope :: existed(x) && x != tgt ==> x.nodes == old(x.nodes)
 //@   ensures[C08:accepted-provide-touches-no-other-registry,C09:accepted-provide-touches-no-other-registry] forall x *Scope, k key :: existed(x) && x != tgt ==> x.providers[k] == old(x.providers[k])
 //@   ensures[C05:accepted-provide-leaves-every-listed-graph-verified-or-deferred,C16:accepted-provide-leaves-every-listed-graph-verified-or-deferred] err == nil ==> (forall k int :: 0 <= k && k < len(all) ==>
 //@        all[k].isVerifiedAcyclic == !all[k].deferAcyclicVerification)
@@ -1671,21 +1671,96 @@ package dig
 //@ pure func nodeListsOK() Bool = forall x *Scope, j int :: { x.nodes[j] } allocated(x) && 0 <= j && j < len(x.nodes) ==> x.nodes[j] != nil
 
 //@ func (s *Scope) addNodes(dg) ()
-//@   requires s != nil && graphOK(dg) && childrenLinked() && nodeListsOK()
+//@   requires s != nil && drawnOK(dg) && childrenLinked() && nodeListsOK()
 //@   modifies dot.Graph.Ctors, elems(*dot.Ctor), map(dot.Graph.ctorMap), map(dot.Graph.consumers), dot.Graph.Groups, elems(*dot.Group), map(dot.Graph.groupMap), dot.Ctor.Params, dot.Ctor.GroupParams, dot.Ctor.Results, dot.Result.GroupIndex, dot.Group.Results, elems(*dot.Result), elems(*dot.Param)
 //@   allocates plain
 //@   ensures[C19:drawing-keeps-the-tree] childrenLinked() && nodeListsOK()
-//@   ensures[C19:at-least-one-cluster-per-accepted-constructor-of-the-scope] len(dg.Ctors) >= old(len(dg.Ctors)) + len(s.nodes) && len(dg.Ctors) >= old(len(dg.Ctors)) && graphOK(dg)
+//@   ensures[C19:at-least-one-cluster-per-accepted-constructor-of-the-scope] len(dg.Ctors) >= old(len(dg.Ctors)) + len(s.nodes) && len(dg.Ctors) >= old(len(dg.Ctors)) && drawnOK(dg)
 //@   ensures[C19:earlier-clusters-kept] forall i int :: 0 <= i && i < old(len(dg.Ctors)) ==> dg.Ctors[i] == old(dg.Ctors[i])
 //@   ensures[C03:drawing-runs-nothing] $nrun == old($nrun) && $ncb == old($ncb)
 //@   loop range s.nodes #1: complete[C19:every-accepted-constructor-of-the-scope-is-drawn]
-//@   loop range s.nodes #1: invariant[C19:clusters-so-far] len(dg.Ctors) == old(len(dg.Ctors)) + $i && graphOK(dg) && (forall i int :: 0 <= i && i < old(len(dg.Ctors)) ==> dg.Ctors[i] == old(dg.Ctors[i]))
+//@   loop range s.nodes #1: invariant[C19:clusters-so-far] len(dg.Ctors) == old(len(dg.Ctors)) + $i && drawnOK(dg) && (forall i int :: 0 <= i && i < old(len(dg.Ctors)) ==> dg.Ctors[i] == old(dg.Ctors[i]))
 //@   loop range s.nodes #1: invariant s.nodes == old(s.nodes) && childrenLinked() && nodeListsOK() && s.childScopes == old(s.childScopes)
 //@   loop range s.childScopes #1: complete[C19:every-child-scope-is-drawn]
-//@   loop range s.childScopes #1: invariant[C19:clusters-of-children-only-add] len(dg.Ctors) >= old(len(dg.Ctors)) + len(s.nodes) && graphOK(dg) && (forall i int :: 0 <= i && i < old(len(dg.Ctors)) ==> dg.Ctors[i] == old(dg.Ctors[i]))
+//@   loop range s.childScopes #1: invariant[C19:clusters-of-children-only-add] len(dg.Ctors) >= old(len(dg.Ctors)) + len(s.nodes) && drawnOK(dg) && (forall i int :: 0 <= i && i < old(len(dg.Ctors)) ==> dg.Ctors[i] == old(dg.Ctors[i]))
 //@   loop range s.childScopes #1: invariant childrenLinked() && nodeListsOK() && s.childScopes == old(s.childScopes) && s.nodes == old(s.nodes)
 //@   site call (*dot.Graph).AddCtor #1: assert[C19:a-cluster-shows-the-constructors-own-id-parameters-and-results] $recv == dg && $arg0 != nil && $arg0.ID == s.nodes[$i].id
 //@        && $arg1 == ret(DotParam_1, 0) && $arg2 == ret(DotResult_1, 0)
 //@   site call (dig.paramList).DotParam #1: assert[C19:parameters-taken-from-the-constructor-being-drawn] $recv == s.nodes[$i].paramList
 //@   site call (dig.resultList).DotResult #1: assert[C19:results-taken-from-the-constructor-being-drawn] $recv == s.nodes[$i].resultList
 //@   site call (*dig.Scope).addNodes #1: assert[C19:children-drawn-into-the-same-graph] $recv == s.childScopes[$i] && $arg0 == dg
+
+// ---------------------------------------------------------------------------
+// C19: which failures can be drawn, and what each failure marks
+
+// an error of the chain carries drawable information: a missing type, a
+// single value or a value group that failed to build
+//@ ufunc chainHasVisualizer(Any) Bool
+//@ axiom[chainHasVisualizer-def] forall e Any :: { chainHasVisualizer(e) } chainHasVisualizer(e) == (e != nil && (isA(e, errVisualizer) || chainHasVisualizer(unwrapOf(e))))
+
+//@ func CanVisualizeError(err0) (r)
+//@   allocates
+//@   ensures[C19:can-visualize-exactly-when-the-chain-carries-a-failure] r == chainHasVisualizer(err0)
+//@   ensures[C03:asking-runs-nothing] $nrun == old($nrun) && $ncb == old($ncb) && unchangedAll()
+//@   loop for #1: invariant[C19:no-failure-seen-so-far] chainHasVisualizer(err0) == chainHasVisualizer(err)
+
+// what every drawable failure does to the graph (each implementation proves it)
+//@ func (e errVisualizer) updateGraph(g) ()
+//@   trusted
+//@   requires drawnOK(g)
+//@   modifies dot.FailedNodes.RootCauses, dot.FailedNodes.TransitiveFailures, elems(*dot.Result), map(dot.FailedNodes.ctors), map(dot.FailedNodes.groups), dot.Ctor.ErrorType, dot.Group.ErrorType, dot.Graph.Groups, elems(*dot.Group), map(dot.Graph.groupMap)
+//@   allocates
+//@   ensures drawnOK(g)
+
+//@ func (e errParamSingleFailed) updateGraph(g) ()
+//@   requires drawnOK(g)
+//@   ensures[C19:marking-keeps-the-graph-well-formed] drawnOK(g)
+//@   modifies dot.FailedNodes.RootCauses, dot.FailedNodes.TransitiveFailures, elems(*dot.Result), map(dot.FailedNodes.ctors), dot.Ctor.ErrorType
+//@   allocates
+//@   site call (*dot.Graph).FailNodes #1: assert[C19:a-failed-value-marks-its-own-key-and-constructor] $recv == g && $arg1 == e.CtorID && len($arg0) == 1 && $arg0[0] != nil && $arg0[0].Node != nil
+//@        && $arg0[0].Node.Type == e.Key.t && $arg0[0].Node.Name == e.Key.name && $arg0[0].Node.Group == e.Key.group
+
+//@ func (e errParamGroupFailed) updateGraph(g) ()
+//@   requires drawnOK(g)
+//@   ensures[C19:marking-keeps-the-graph-well-formed] drawnOK(g)
+//@   modifies dot.FailedNodes.RootCauses, dot.FailedNodes.TransitiveFailures, elems(*dot.Result), map(dot.FailedNodes.ctors), map(dot.FailedNodes.groups), dot.Ctor.ErrorType, dot.Group.ErrorType, dot.Graph.Groups, elems(*dot.Group), map(dot.Graph.groupMap)
+//@   allocates
+//@   site call (*dot.Graph).FailGroupNodes #1: assert[C19:a-failed-group-marks-its-own-group-and-constructor] $recv == g && $arg0 == e.Key.group && $arg1 == e.Key.t && $arg2 == e.CtorID
+
+//@ func (e errMissingTypes) updateGraph(g) ()
+//@   requires drawnOK(g)
+//@   ensures[C19:marking-keeps-the-graph-well-formed] drawnOK(g)
+//@   loop range e #1: invariant drawnOK(g)
+//@   modifies dot.FailedNodes.RootCauses, dot.FailedNodes.TransitiveFailures, elems(*dot.Result)
+//@   allocates
+//@   loop range e #1: complete[C19:every-missing-type-becomes-a-node]
+//@   loop range e #1: invariant len(missing) == len(e) && fresh(missing) && missing.arr != e.arr && missing.arr <= $alloc
+//@   loop range e #1: invariant[C19:missing-nodes-are-new] forall j int :: 0 <= j && j < $i ==> missing[j] != nil && fresh(missing[j]) && missing[j].Node != nil && fresh(missing[j].Node) && missing[j] <= $alloc && missing[j].Node <= $alloc
+//@   loop range e #1: invariant[C19:missing-nodes-so-far] forall j int :: 0 <= j && j < $i ==> missing[j].Node.Type == e[j].Key.t && missing[j].Node.Name == e[j].Key.name && missing[j].Node.Group == e[j].Key.group
+//@   site call (*dot.Graph).AddMissingNodes #1: assert[C19:the-missing-types-are-what-is-marked] $recv == g && $arg0 == missing && (forall j int :: 0 <= j && j < len(e) ==> missing[j] != nil && missing[j].Node != nil
+//@        && missing[j].Node.Type == e[j].Key.t && missing[j].Node.Name == e[j].Key.name && missing[j].Node.Group == e[j].Key.group)
+
+// the failures of the chain are marked innermost first (the root cause is the
+// failure recorded first), then everything that did not fail is pruned
+//@ func updateGraph(dg, err0) (r)
+//@   requires drawnOK(dg)
+//@   modifies dot.FailedNodes.RootCauses, dot.FailedNodes.TransitiveFailures, elems(*dot.Result), map(dot.FailedNodes.ctors), map(dot.FailedNodes.groups), dot.Ctor.ErrorType, dot.Group.ErrorType, dot.Graph.Groups, elems(*dot.Group), map(dot.Graph.groupMap)
+//@   modifies dot.Graph.Ctors, elems(*dot.Ctor), map(dot.Graph.ctorMap), dot.Ctor.Params, dot.Ctor.GroupParams, elems(*dot.Param), dot.Group.Results
+//@   allocates
+//@   ensures[C19:drawing-a-failure-never-fails] r == nil
+//@   ensures[C19:nothing-is-marked-without-a-drawable-failure] !chainHasVisualizer(err0) ==> unchangedAll() && !reached(PruneSuccess_1)
+//@   ensures[C19:successes-are-pruned-once-the-failures-are-marked] chainHasVisualizer(err0) ==> reached(PruneSuccess_1)
+//@   loop for #1: invariant[C19:drawable-failures-collected-so-far] chainHasVisualizer(err0) == (len(errs) > 0 || chainHasVisualizer(err)) && (cap(errs) == 0 || fresh(errs))
+//@        && (forall j int :: 0 <= j && j < len(errs) ==> errs[j] != nil && isA(errs[j], errVisualizer)) && unchangedAll()
+//@   loop for i >= 0 #1: invariant[C19:failures-marked-from-the-innermost-outwards] drawnOK(dg) && 0 - 1 <= i && i < len(errs) && (cap(errs) == 0 || fresh(errs))
+//@        && (forall j int :: 0 <= j && j < len(errs) ==> errs[j] != nil && isA(errs[j], errVisualizer))
+//@   site call (dig.errVisualizer).updateGraph #1: assert[C19:each-collected-failure-marks-the-graph-being-drawn] $recv == errs[i] && $arg0 == dg
+
+//@ func (s *Scope) createGraph() (dg)
+//@   requires s != nil && childrenLinked() && nodeListsOK()
+//@   modifies dot.Graph.Ctors, elems(*dot.Ctor), map(dot.Graph.ctorMap), map(dot.Graph.consumers), dot.Graph.Groups, elems(*dot.Group), map(dot.Graph.groupMap), dot.Ctor.Params, dot.Ctor.GroupParams, dot.Ctor.Results, dot.Result.GroupIndex, dot.Group.Results, elems(*dot.Result), elems(*dot.Param)
+//@   allocates plain
+//@   ensures[C19:the-drawn-graph-is-well-formed] drawnOK(dg) && fresh(dg) && len(dg.Ctors) >= len(s.nodes)
+//@   ensures[C03:drawing-runs-nothing] $nrun == old($nrun) && $ncb == old($ncb)
+//@   site call (*dig.Scope).addNodes #1: assert[C19:the-scope-is-drawn-into-a-new-graph] $recv == s && $arg0 == ret(NewGraph_1, 0)
+
